@@ -1,7 +1,6 @@
 package sim
 
 import (
-	ipfslog "berty.tech/go-ipfs-log"
 	"context"
 	"encoding/json"
 	"fmt"
@@ -107,23 +106,28 @@ func scenC07(k *K) {
 			lenBefore := ds.OpLog().Len()
 			hashesBefore := LogHashSet(ds)
 			wr, err := c.Write(node, "docdel "+key, func(ctx context.Context) (operation.Operation, error) { return ds.Delete(ctx, key) })
-			if !present {
-				// a replication that was under way may have merged a put of this key between
-				// the reading above and the call's own look at the documents: then the call
-				// was right to accept
-				raced := false
-				if err == nil {
-					for _, e := range LogValues(ds) {
-						if h := e.GetHash().String(); !hashesBefore[h] && h != wr.Hash {
-							if _, ok := ReplayLWW([]ipfslog.Entry{e})[key]; ok {
+			// a replication that was under way may have merged an operation on this key between
+			// the reading above and the call's own look at the documents: then either answer
+			// of the call is right
+			raced := false
+			for _, e := range LogValues(ds) {
+				if h := e.GetHash().String(); !hashesBefore[h] && (wr == nil || h != wr.Hash) {
+					if o, ok := decodeOp(e.GetPayload()); ok {
+						if o.Key != nil && *o.Key == key {
+							raced = true
+						}
+						for _, d := range o.Docs {
+							if d.Key == key {
 								raced = true
 							}
 						}
 					}
 				}
-				if raced {
-					k.W.Stat("delete-absent-raced-with-merge")
-				} else if err == nil {
+			}
+			if raced {
+				k.W.Stat("delete-raced-with-merge")
+			} else if !present {
+				if err == nil {
 					k.Failf("C07/delete-absent-accepted", "n%d Delete(%q) of an absent key returned success (%v)", node, key, wr.Name)
 				}
 				if ds.OpLog().Len() != lenBefore && k.opsInFlight() == 0 {
